@@ -16,7 +16,7 @@ from ..refs import semver as S
 from . import c05, c07
 
 MINIMUMS = (1500, 300)
-PREFIXES = [None, None, "v", "release-", "V", "é", "ver "]
+PREFIXES = [None, None, "v", "release-", "V", "é", "ver ", "0", "1", "2", "9", "10", "1.", "0.", "4294967295", "1.0.0-", "1!"]
 U64 = 2 ** 64 - 1
 
 
@@ -94,12 +94,12 @@ def gen_case(rng):
         flags = [t for g in fs.groups[:4] for t in g]
         if any(t.startswith(("--core", "--extra-core", "--build", "--bump-core", "--bump-extra-core", "--bump-build")) for t in flags):
             preset = False        # literal components may have been rewritten: no longer the preset
-    return dict(argv=argv, sargs=sargs, flags=flags, stdin=stdin, preset=preset, fmt=fmt, prefix=prefix)
+    return dict(argv=argv, sargs=sargs, flags=flags, stdin=stdin, preset=preset, fmt=fmt, prefix=prefix, verbose=rng.random() < 0.1)
 
 
 def judge_run(bins, env, cmd, c, extra_argv, cwd="/"):
     """runs one case; returns (list of (sig, why), stats-key)"""
-    argv = [cmd] + extra_argv + c["sargs"] + c["flags"] + ["--output-format", c["fmt"]]
+    argv = [cmd] + (["-v"] if c.get("verbose") else []) + extra_argv + c["sargs"] + c["flags"] + ["--output-format", c["fmt"]]
     if c["prefix"] is not None:
         argv += ["--output-prefix", c["prefix"]]
     r = core.run_zerv(bins, argv, stdin=c["stdin"], env=env, cwd=cwd)
@@ -247,7 +247,7 @@ def run(ctx):
         raise core.Inconclusive("no version was emitted from a git source")
     ctx.rule = ("%d runs of `zerv version` / `zerv flow` with source none (canonical tags, hostile Unicode text in branch / hash / custom JSON, numbers up to 2^64-1), "
                 "stdin (random valid schemas x random variable assignments with Unicode text) and %d random git repositories (Unicode / upper-case / long branch "
-                "names, dirty trees), under the 22 presets or random RON schemas, 0-4 override/bump flags, both formats, 7 prefixes; every emitted string is parsed "
+                "names, dirty trees), under the 22 presets or random RON schemas, 0-4 override/bump flags, both formats, 16 prefixes (incl. digit prefixes that coincide with the start of the version), -v on a tenth of the runs; every emitted string is parsed "
                 "by the independent recognisers, fed to `zerv check`, and for preset schemas re-rendered. non-trivial = distinct command lines that emitted a version" % (32 * per, nrep))
     ctx.assumptions = ["PEP 440 'normalised' = equals the output of the reference normaliser", "runs that zerv refuses (non-zero exit) are outside C01 and only counted"]
 
